@@ -21,15 +21,16 @@ ANCHORS = [("lib/debian/_deb822_repro/parsing.py",
 BUDGET = {"quick": 500, "thorough": 6000}
 RULE = ("documents of 1-3 paragraphs (c05.gen_doc: comment lines before fields, multi-line values, free "
         "comments/blank lines between paragraphs, head/tail comments, with and without final LF), half of them "
-        "with duplicated (also case-variant) field names, plus small two-name documents; x histories of 1-6 "
-        "operations: order_first/last/before/after with un-indexed and (name, i) keys (i in -2..3, any case "
-        "spelling, absent names, self references), sort_fields, p[k]=v / del p[k] with un-indexed and indexed keys "
-        "(plain one-line values; a few multi-line/invalid values and bad keys), Deb822FileElement.append/insert of "
-        "freshly built paragraphs (index 0..n+1, rarely negative), re-appending a paragraph of the file; a stream "
-        "that empties a paragraph and then appends.  Observed after every operation: exception kind, dump(), a fresh "
-        "parse of the dump (name and exact text of every field), and for every paragraph and every name in it the "
-        "position of get_kvpair_element((name, i)) among iter_parts() for i = -1, 0..count.  non-trivial = at least "
-        "one operation succeeded and changed the dump")
+        "with duplicated (also case-variant) field names, plus small documents over five names (60% with duplicates); "
+        "x histories of 1-6 operations: order_first/last/before/after with un-indexed and (name, i) keys (mostly valid "
+        "indices, also negative, out of range, any case spelling, absent names, self references), sort_fields, "
+        "p[k]=v / del p[k] with un-indexed and indexed keys (plain one-line values; a few multi-line/invalid values "
+        "and bad keys), Deb822FileElement.append/insert of freshly built paragraphs (index 0..n+1, rarely negative), "
+        "re-appending a paragraph of the file; a 2% stream that empties a paragraph, appends/inserts and refills it "
+        "(D23).  Observed after every operation: exception kind, dump(), a fresh parse of the dump (name and exact "
+        "text of every field), and for the paragraph operated on (all paragraphs after append/insert and at the end "
+        "of the history) and every name in it the position of get_kvpair_element((name, i)) among iter_parts() for "
+        "i = -1, 0..count.  non-trivial = at least one operation succeeded and changed the dump")
 TRUSTED = ["model coq/Repro/Struct.v (on coq/Repro/Doc.v) is a hand transcription of the order_*/sort_fields methods of "
            "both paragraph classes, _nodes_being_relocated, _regenerate_relative_kvapir_order and "
            "Deb822FileElement.append/insert at field-text level; OrderedSet and LinkedList at list level (the linked "
@@ -37,17 +38,22 @@ TRUSTED = ["model coq/Repro/Struct.v (on coq/Repro/Doc.v) is a hand transcriptio
            "the initial abstract document of a case is read off the implementation's own parse (c05.abstract: class, "
            "comment text, name text, remaining text per key-value pair)",
            "p[k]=v inside a history is Doc.setitem (C05's model); the reference judges it only for plain one-line values",
-           "sorted() is a stable sort: modelled by insertion sort (coq/Repro/StructSort.v), proved stable/sorted/permutation"]
+           "sorted() is a stable sort: modelled by insertion sort (coq/Repro/StructSort.v), proved sorted/stable/permutation "
+           "(coq/Repro/StructSortProofs.v)"]
 ASSUMPTIONS = ["keys are ASCII (str.lower is modelled by ascii_lower); histories are judged up to the first non-ASCII key",
                "set values outside 'plain one-line value' and new names outside [A-Za-z0-9][A-Za-z0-9_-]* end the judged "
                "part of a history (they are C05's subject); the model is still compared on them",
                "a negative index (name, -k) may be refused (the no-duplicates class refuses every index but 0) or count "
                "from the end; (name, 0) for an absent name may add the field or be refused",
                "insert(i): the new paragraph may land anywhere between paragraph i-1 and paragraph i (the docstring leaves "
-               "the side of free-floating comments open); negative i is outside the quantifier",
+               "the side of free-floating comments open), i beyond the last paragraph = anywhere after it; negative i is "
+               "outside the quantifier (the model reproduces what the code does with it)",
                "paragraphs that have lost all their fields have no text: a fresh parse shows the non-empty paragraphs",
-               "insert_append_no_merge is _partial: the statement about the real parser needs C01/C05's parse_dump theorem; "
-               "the no-merge condition itself is checked on every case through the fresh parse"]
+               "a refused operation may already have supplied the missing final newline of the paragraph "
+               "(_ensure_final_newline runs before the reference field is looked up)",
+               "theorems assume every operation addresses an existing paragraph (ops_in_range)",
+               "C10_insert_append_no_merge_partial: that the separators suffice for the real parser needs C01/C05's "
+               "parse(dump) theorem; the no-merge condition itself is checked on every case through the fresh parse"]
 
 
 # ---------------------------------------------------------------------------
@@ -95,7 +101,7 @@ def extra_queries(p, op):
     return out
 
 
-def observe_step(f, op):
+def observe_step(f, op, last):
     err = None
     try:
         apply_op(f, op)
@@ -103,12 +109,15 @@ def observe_step(f, op):
         err = err_kind(e)
     dump = f.dump()
     st = {"err": err, "dump": dump, "pos": []}
+    everything = last or op["o"] in ("append", "insert", "reappend")
     for j, p in enumerate(f):
+        if not everything and op.get("p") != j:
+            continue
         q = positions(p)
         if op.get("p") == j:
             have = {(n.lower(), i) for n, i, _ in q}
             q += [x for x in extra_queries(p, op) if (x[0].lower(), x[1]) not in have]
-        st["pos"].append(q)
+        st["pos"].append([j, q])
     try:
         g = parse_doc(split_lines(dump))
         st["reparse"] = [[[str(kv.field_name), kv.convert_to_text()] for kv in p.iter_parts()] for p in g]
@@ -120,8 +129,8 @@ def observe_step(f, op):
 def run_impl(case):
     f = parse_doc(split_lines(case["text"]))
     obs = {"items": c05.abstract(f), "steps": []}
-    for op in case["ops"]:
-        obs["steps"].append(observe_step(f, op))
+    for k, op in enumerate(case["ops"]):
+        obs["steps"].append(observe_step(f, op, k + 1 == len(case["ops"])))
     return obs
 
 
@@ -158,14 +167,25 @@ def cq_op(op, S):
 
 
 def cq_ans(r):
-    return "(Ok %d%%nat)" % r["ok"] if "ok" in r else "(Err %s)" % r["err"]
+    return "(Ok %d)" % r["ok"] if "ok" in r else "(Err %s)" % r["err"]
+
+
+def cq_z(i):
+    return "%d%%Z" % i if i >= 0 else "(%d)%%Z" % i
+
+
+def cq_item2(it, S):
+    if it[0] == "P":
+        return "IP %s %s" % (cq_bool(it[1]), cq_list(["FL %s %s %s" % (S(c), S(n), S(r)) for c, n, r in it[2]]))
+    return cq_item(it, S)
 
 
 def cq_step(st, S):
     rp = st["reparse"]
     rps = "None" if rp is None else "(Some %s)" % cq_list(
-        [cq_list(["(%s, %s)" % (S(n), S(t)) for n, t in para]) for para in rp])
-    pos = cq_list([cq_list(["(%s, (%d)%%Z, %s)" % (S(n), i, cq_ans(r)) for n, i, r in para]) for para in st["pos"]])
+        [cq_list(["NT %s %s" % (S(n), S(t)) for n, t in para]) for para in rp])
+    pos = cq_list(["PQ %d %s" % (j, cq_list(["Q %s %s %s" % (S(n), cq_z(i), cq_ans(r)) for n, i, r in para]))
+                   for j, para in st["pos"]])
     return "mkS %s %s %s %s" % ("None" if st["err"] is None else "(Some %s)" % st["err"],
                                 cq_pieces(st["dump"], S), rps, pos)
 
@@ -175,11 +195,11 @@ def emit(case, obs):
     _walk_strings([split_lines(case["text"]), [[v for k, v in op.items() if k != "o"] for op in case["ops"]],
                    obs["items"]], I.note)
     for st in obs["steps"]:
-        _walk_strings([split_lines(st["dump"]), st["reparse"], [[n for n, _, _ in para] for para in st["pos"]]], I.note)
+        _walk_strings([split_lines(st["dump"]), st["reparse"], [[n for n, _, _ in para] for _, para in st["pos"]]], I.note)
     I.finish()
     S = I.ref
     term = "Run %s %s %s %s" % (
-        cq_pieces(case["text"], S), cq_list([cq_item(it, S) for it in obs["items"]]),
+        cq_pieces(case["text"], S), cq_list([cq_item2(it, S) for it in obs["items"]]),
         cq_list([cq_op(op, S) for op in case["ops"]]), cq_list([cq_step(st, S) for st in obs["steps"]]))
     return I.wrap(term)
 
@@ -226,12 +246,18 @@ def gen_key(rng, names):
     r = rng.random()
     if r < 0.03:
         return rng.choice(BAD_KEYS)
-    pool = list(names) + ["Zz"]
-    n = rng.choice(pool) if r < 0.93 else "Zz"
+    n = rng.choice(list(names)) if names and r < 0.92 else "Zz"
+    c = sum(1 for m in names if m.lower() == n.lower())
     n = rng.choice([n, n, n.lower(), n.upper(), n.swapcase()])
-    if rng.random() < 0.5:
+    r2 = rng.random()
+    if r2 < 0.45:
         return n
-    return [n, rng.choice([0, 0, 0, 1, 1, 2, -1, -2, 3])]
+    r3 = rng.random()
+    if c and r3 < 0.7:
+        return [n, rng.randrange(c)]
+    if c and r3 < 0.8:
+        return [n, -rng.randint(1, c)]
+    return [n, rng.choice([0, 1, 2, 3, -1, -2, c, -c - 1])]
 
 
 def gen_kvs(rng):
